@@ -1,5 +1,6 @@
 import Blue.Model.Damage
 import Blue.Proofs.SstOpen
+import Blue.Proofs.LogZeroed
 /-! Theorems about damage steps and about the log / manifest readers on hostile bytes (C09). -/
 namespace Blue.Damage
 open Blue.Log Blue.Mani
@@ -62,17 +63,136 @@ theorem data_block_damage_opens (crc : List Nat → Nat) (f : List Nat) (t : Blu
   obtain ⟨hl, hg⟩ := applyAll_below a ds f hds
   exact Blue.SstOpen.openSst_tail crc f (applyAll f ds) t h hl a ha ha8 hg
 
-/-! ### the log: D-11's mechanism -/
+/-! ### the log: a zero where a header length is expected (D-11, repaired) -/
 
-/-- **a zero where a header length is expected, within `HEADER_MAX_SIZE` of the end of a block, is
-    padding**: the reader goes on at the block boundary whatever lies in between — in particular a
-    frame whose length byte was overwritten with zero (D-11).  Farther from the boundary the same
-    zero is an error. -/
-theorem zero_length_is_padding (P : Params) (file : List Nat) (fuel off : Nat) (h0 : file[off]? = some 0) :
+/-- **a zero where a header length is expected is padding only if everything up to the block
+    boundary is zero**: within `HEADER_MAX_SIZE` of the boundary the reader reads the bytes it is
+    about to skip and goes on at the boundary when those the file has are all zero (the writer's
+    `true_up` writes nothing else; a file that ends inside the padding is a torn tail, not damage);
+    farther from the boundary the zero is an error, as it always was. -/
+theorem zero_length_is_checked_padding (P : Params) (file : List Nat) (fuel off : Nat) (h0 : file[off]? = some 0) :
     nextHeader P file (fuel + 1) off =
-      if trueUp P (off + 1) - (off + 1) > P.H then .err else nextHeader P file fuel (trueUp P (off + 1)) := by
+      if trueUp P (off + 1) - (off + 1) > P.H then .err
+      else if !padZero file (off + 1) (trueUp P (off + 1)) then .err
+      else nextHeader P file fuel (trueUp P (off + 1)) := by
   rw [nextHeader]
   simp only [h0, if_true]
+
+/-- **a zero length byte followed by any non-zero byte before the block boundary is an error** —
+    in particular a frame whose length byte was overwritten with zero (D-11: as found, the reader
+    went on at the boundary and the frame was lost without a trace). -/
+theorem zero_length_then_nonzero_is_error (P : Params) (file : List Nat) (fuel off i x : Nat)
+    (h0 : file[off]? = some 0) (hi1 : off + 1 ≤ i) (hi2 : i < trueUp P (off + 1))
+    (hx : file[i]? = some x) (hx0 : x ≠ 0) :
+    nextHeader P file (fuel + 1) off = .err := by
+  rw [zero_length_is_checked_padding P file fuel off h0]
+  have hp : padZero file (off + 1) (trueUp P (off + 1)) = false :=
+    (padZero_false_iff file _ _).2 ⟨i, x, hi1, hi2, hx, hx0⟩
+  rw [hp]
+  split <;> rfl
+
+/-- `next_header` as found, before the repair: its `true_up` seeks to the boundary without looking
+    at the bytes it skips (kept for the record of D-11) -/
+def nextHeaderAsFound (P : Params) (file : List Nat) : Nat → Nat → R (Hdr × Nat)
+  | 0, _ => .err
+  | f+1, off =>
+    match file[off]? with
+    | none => .eof
+    | some hsz =>
+      if hsz = 0 then
+        let t := trueUp P (off + 1)
+        if t - (off + 1) > P.H then .err else nextHeaderAsFound P file f t
+      else if hsz > P.H then .err
+      else if off + 1 + hsz > file.length then .err
+      else match P.decH (slice file (off + 1) hsz) with
+        | none => .err
+        | some h => if h.size > P.tableFull then .err else .ok (h, off + 1 + hsz)
+
+/-- **D-11 as found**: a zero where a header length is expected, within `HEADER_MAX_SIZE` of the end
+    of a block, was padding whatever lay between it and the boundary -/
+theorem zero_length_is_padding_as_found (P : Params) (file : List Nat) (fuel off : Nat) (h0 : file[off]? = some 0) :
+    nextHeaderAsFound P file (fuel + 1) off =
+      if trueUp P (off + 1) - (off + 1) > P.H then .err else nextHeaderAsFound P file fuel (trueUp P (off + 1)) := by
+  rw [nextHeaderAsFound]
+  simp only [h0, if_true]
+
+/-- toy parameters for the witness below: blocks of 64 bytes, `HEADER_MAX_SIZE = 19`, a header codec
+    that accepts anything -/
+def toyParams : Params := ⟨64, 19, 100, fun _ => [1], fun _ => some ⟨0, 1, 0⟩, fun _ => 0⟩
+
+/-- a frame of 20 non-padding bytes that starts 20 bytes before the block boundary at 64, its
+    header-length byte overwritten with zero, then a frame on the boundary -/
+def toyZeroed : List Nat := List.replicate 44 7 ++ 0 :: List.replicate 19 9 ++ [1, 1]
+
+/-- **D-11 witnessed on the two readers**: as found, the reader steps over the 19 non-zero bytes and
+    hands out the header of the frame on the boundary as if nothing had been there; repaired, it
+    reports an error -/
+theorem d11_as_found_vs_repaired :
+    nextHeaderAsFound toyParams toyZeroed 2 44 = .ok (⟨0, 1, 0⟩, 66)
+    ∧ nextHeader toyParams toyZeroed 2 44 = .err := by
+  constructor <;> rfl
+
+theorem deliver_true : ∀ bs : List (List Nat), (deliver bs true).2 = true
+  | [] => rfl
+  | b :: bs => by
+    unfold deliver
+    simp only
+    split
+    · rfl
+    · exact deliver_true bs
+
+theorem appendAt_length_pos (P : Params) (hB : 0 < P.B) (pos : Nat) (buf : List Nat) :
+    1 ≤ (appendAt P 2 pos buf).length := by
+  have hf : ∀ d p, 1 ≤ (frame P d p).length := by intro d p; unfold frame; simp
+  have hnb : pos < nextBoundary P pos := by
+    obtain ⟨q, m, hpos, hm⟩ := block_decomp (P := P) hB pos
+    rw [nextBoundary_block hB q pos (by omega) (by omega)]; omega
+  rw [show (2 : Nat) = 1 + 1 from rfl, appendAt_succ]
+  split
+  · split
+    · simp only [List.length_append, zeros_length]; omega
+    · have := hf FIRST (buf.take (nextBoundary P pos - pos - P.H))
+      simp only [List.length_append]; omega
+  · exact hf WHOLE buf
+
+theorem writeAll_length_ge (P : Params) (hB : 0 < P.B) : ∀ (bufs : List (List Nat)) (pos : Nat),
+    bufs.length ≤ (writeAll P bufs pos).length
+  | [], _ => Nat.zero_le _
+  | b :: bs, pos => by
+    have h1 := appendAt_length_pos P hB pos b
+    have h2 := writeAll_length_ge P hB bs (pos + (appendAt P 2 pos b).length)
+    simp only [writeAll, List.length_append, List.length_cons]
+    omega
+
+/-- **D-11 repaired, at the level of the replay**: zero the header-length byte of the (first) frame
+    of any one append of a log: `LogIterator` delivers exactly the entries of the batches appended
+    before it and ends with an error, so `log_to_builder` and `log_to_setsum` fail — the damaged
+    frame is never stepped over. -/
+theorem zeroed_header_length_replay_fails (P : Params) (g : Good P) (hbig : BigTag P)
+    (bufs1 : List (List Nat)) (b : List Nat) (bufs2 : List (List Nat))
+    (hsz : ∀ x ∈ bufs1, x.length ≤ P.tableFull) :
+    drain P ((writeAll P (bufs1 ++ b :: bufs2) 0).set (headOff P (writeAll P bufs1 0).length b) 0)
+        = deliver bufs1 true
+    ∧ logToBuilder P ((writeAll P (bufs1 ++ b :: bufs2) 0).set (headOff P (writeAll P bufs1 0).length b) 0)
+        = .readerError
+    ∧ logToSetsumOk P ((writeAll P (bufs1 ++ b :: bufs2) 0).set (headOff P (writeAll P bufs1 0).length b) 0)
+        = false := by
+  have hB : 0 < P.B := by have := g.hB; omega
+  have hdrain : drain P ((writeAll P (bufs1 ++ b :: bufs2) 0).set (headOff P (writeAll P bufs1 0).length b) 0)
+      = deliver bufs1 true := by
+    unfold drain
+    have hlen := writeAll_length_ge P hB (bufs1 ++ b :: bufs2) 0
+    simp only [List.length_append, List.length_cons] at hlen
+    obtain ⟨k, hk⟩ : ∃ k, ((writeAll P (bufs1 ++ b :: bufs2) 0).set (headOff P (writeAll P bufs1 0).length b) 0).length + 2
+        = bufs1.length + 1 + k :=
+      ⟨(writeAll P (bufs1 ++ b :: bufs2) 0).length + 2 - (bufs1.length + 1), by rw [List.length_set]; omega⟩
+    rw [hk, zeroed_header_length_detected g hbig bufs1 b bufs2 hsz k]
+  refine ⟨hdrain, ?_, ?_⟩
+  · unfold logToBuilder replayOf
+    rw [hdrain, deliver_true, if_pos rfl]
+  · unfold logToSetsumOk
+    rw [hdrain, deliver_true]
+    rfl
 
 /-! ### the manifest: which lines are guarded -/
 variable (crc : List Nat → Nat)
